@@ -1,15 +1,18 @@
 ENTRY = dict(
-    runner="C26", pkg="./cmd/c26", corr=["Corr.C26Corr"], n=dict(quick=160, thorough=6000), race_suite="C26race", runner_timeout=3000,
+    runner="C26", pkg="./cmd/c26", corr=["Corr.C26Corr"], n=dict(quick=240, thorough=6000), race_suite="C26race", runner_timeout=3000,
     rule="one UConn (HelloGolang, Chrome_120, Firefox_120, Chrome_133) over loopback TCP against a crypto/tls server (normal, slow, "
          "aborting); 2..5 concurrent Handshake/HandshakeContext callers with random start delays, cancellation at a random point in "
          "0..3 ms or after return, optional reader, writer, Close/CloseWrite at a random point; every 7th run: Close while the single Write is "
          "parked in the transport (peer stopped reading, no write deadline); every 7th run: Read and Write started before any Handshake "
-         "(implicit handshakes) against a server that waits for the client's request; 8 runs in parallel; the same workload "
+         "(implicit handshakes) against a server that waits for the client's request; every 7th run: HandshakeContext with a context that is "
+         "already cancelled / expired / expiring within microseconds at call time, before or after the handshake completed; two of seven "
+         "runs: TLS 1.2 server (the package's own, hook VerifSendHelloRequest) that sends a HelloRequest while a reader sits in Read and "
+         "2..4 goroutines spin on Handshake/HandshakeContext/Write; 8 runs in parallel; the same workload "
          "again under the race detector. Distinct by (id, server, callers, cancellations, close kind, results); non-trivial with more than two callers.",
     trusted_base=["Go runtime mutexes, atomics, context and scheduler", "Go race detector (data-race freedom is observed, not proved)",
-                  "crypto/tls server as the peer"],
+                  "crypto/tls server as the peer", "hooks/verif_c26.go VerifSendHelloRequest (server side writes a HelloRequest record)"],
     assumes=["every I/O inside the handshake body ends (I/O deadline or closed connection)",
-             "isHandshakeComplete / handshakeErr are never reset (no TLS 1.2 renegotiation)",
+             "handshakeErr is never reset; isHandshakeComplete is cleared only by handleRenegotiation, under handshakeMutex (modelled as ERenegStart)",
              "other goroutines act on the shared state only through the environment steps of Model/HsLock.v (shown for the modelled caller itself)"],
     level_text="Proof on the lock model (one caller against an environment of arbitrarily many others; all interleavings): every caller returns "
                "the shared outcome or its own ctx error (then the connection was closed), no deadlock, cancelling after return is a no-op, "
